@@ -49,6 +49,25 @@ CHECKS = {
              "read through xcm_attr_get after every step and compared with the model's (exact), plus monotonicity and ordering as "
              "history checks, on tcp, btcp, ux, uxf.",
         ref="5/C17", tech="TLA+ model checking (TLC) + trace validation of counters after every step"),
+    "C12": dict(
+        text="spec/Addr.tla states the address grammar, the make/parse laws and the capacity bound; spec/AddrMC.tla enumerates with TLC "
+             "every parser string up to a bound over character classes, the boundary/port sweep and the constructor matrix (host kinds x "
+             "ports x capacities 0..len+2) and checks the laws on them; every vector TLC prints plus seeded random/mutated strings is "
+             "executed by harness/addr_exec on the real xcm_addr_* functions (canary-framed buffers, ASan/UBSan) and every recorded call is "
+             "validated by TLC against spec/AddrTrace.tla (return value, errno class, every output byte, agreement with xcm_addr_is_valid).",
+        ref="5/C12", tech="TLA+ model checking (TLC) + TLC-generated vectors replayed on the real codec and validated by a trace specification",
+        note="Trusted base: TLC + CommunityModules; leniencies the documentation does not rule out (sign / leading zeros in a port) are notes, "
+             "not violations (DESIGN 7.1). Memory safety of the parsers is observed by the ASan/UBSan harness on the enumerated inputs, not "
+             "expressed in the model. Bounded: strings up to the configured number of character-class symbols; 65536 ports swept in the thorough tier."),
+    "C19": dict(
+        text="spec/AttrMap.tla (two maps, 3 keys, 5 value types: add/del/get/typed get/exists/size/clone/add_all/equal/foreach as actions, "
+             "finite-map laws as invariants) and spec/AttrPath.tla (the path grammar as an automaton with print/parse laws) are model-checked "
+             "with TLC; one replay path per state/transition and every generated string is run by harness/maps_exec against the real "
+             "xcm_attr_map_* and attr_path_* code (ASan/UBSan) with all observables recorded after every operation, and TLC validates every "
+             "recorded line against spec/AttrMapTrace.tla / spec/AttrPathTrace.tla.",
+        ref="5/C19", tech="TLA+ model checking (TLC) + transition-coverage replay and trace validation against the real map/path code",
+        note="Trusted base: TLC + CommunityModules. Memory errors are observed by the sanitizer-instrumented harness on the enumerated "
+             "and random cases, not expressed in the model. Leniency of strtol inside brackets is a note only (DESIGN 7.1)."),
 }
 
 NOT_APPLICABLE = {}
